@@ -670,3 +670,97 @@ def s08(tier, seed):
             run.witness("national_summary_requested")
     run.sample({"scenario": scen[0]})
     run.finish(require_witnesses=["outcome_ok", "outcome_KeyError", "national_summary_requested"])
+
+
+# ---------------------------------------------------------------------------------------------------------------
+# S09: one model object of the bootstrap estimator (pipeline steps, the stream of draws, clips, what is stored)
+
+
+def _job_bootrun_scenario(arg):
+    from harness import bootrun
+
+    return bootrun.job_scenario(arg)
+
+
+def _job_bootrun_random(seed):
+    from harness import bootrun
+
+    return bootrun.job_random(seed)
+
+
+def s09(tier, seed):
+    """BootstrapRun.tla: TLC-exported shape classes realised as real client runs, random large runs, all validated by Trace_BootstrapRun."""
+    from harness import bootrun, tracecheck
+
+    run = report.Run("S09", tier, seed)
+    run.assumptions += ["supplementary model, not a listed property: numbers are abstract; the model keeps the order of the pipeline steps, "
+                        "the stream of draws from the model's generator with the requested shapes, the stage at which the clips happen, "
+                        "what a model object stores and what a second call on it does",
+                        "the contest columns are counted over all units handed to the model, unexpected ones included (root of open finding F12)"]
+    if tier == "thorough":
+        common.mc(run, "MC_BootstrapRun", "MC_BootstrapRun_thorough.cfg", timeout=1800, workers=16)
+    common.mc(run, "MC_BootstrapRun", "MC_BootstrapRun_demo_clip.cfg", expect_violation="ClipLast", workers=4,
+              name="demo: clipping the margin before the blending / correction steps lets an unclipped factor into the stored products")
+    common.mc(run, "MC_BootstrapRun", "MC_BootstrapRun_demo_F12.cfg", expect_violation="StreamIgnoresUnexpected", workers=4,
+              name="demo (finding F12): an unexpected unit in a state of its own adds a contest column and changes the stream of draws")
+    res = tlc.run_tlc("MC_BootstrapRun", "MC_BootstrapRun_export.cfg", workers=1, timeout=900, keep_stdout=False)
+    run.add_tlc("MC_BootstrapRun_export", res)
+    if res.violation:
+        run.violation(f"tlc:{res.violation}", {"model": "MC_BootstrapRun"}, {"trace": res.error_trace[:60]})
+    seen, scen = set(), []
+    for t, v in res.printed:
+        if t != "SCEN" or v["pres"]:
+            continue
+        key = report.dumps(v, sort_keys=True)
+        if key not in seen:
+            seen.add(key)
+            scen.append(v)
+    rnd = random.Random(seed)
+    rnd.shuffle(scen)
+    run.cov["shape_classes_exported"] = len(scen)
+    n_scen = 160 if tier == "quick" else len(scen)
+    n_rand = 48 if tier == "quick" else 480
+    outs = common.pool().map(_job_bootrun_scenario, list(enumerate(scen[:n_scen])), chunksize=4)
+    outs += common.pool().map(_job_bootrun_random, [seed % 1000 + i for i in range(n_rand)], chunksize=2)
+    traces = []
+    for o in outs:
+        if o["raised"]:
+            run.violation("run_raised", {"clause": "run_raised"}, {k: v for k, v in o.items() if k != "runs"})
+            continue
+        if "scenario" in o:
+            run.cov["scenarios_replayed_into_impl"] += 1
+        for r in o["runs"]:
+            traces.append(r)
+            run.witness("district_column" if r["district"] and r["n_columns"] > len({u[0] for u in r["train"] + r["test"] + r["unexp"]}) else "state_columns_only")
+            run.witness("single_contest_effect_nothing_drawn" if r["eps_count"] == 1 else "several_contest_effects")
+            run.witness("lambda_given" if r["lambda_given"] else "lambda_cross_validated")
+            if r["pres"]:
+                run.witness("presidential_correction")
+            if r["n_calls"] > 1:
+                run.witness("second_call_on_the_object")
+            if r["unexp"]:
+                run.witness("unexpected_units")
+            if r["eps_count"] < r["n_columns"]:
+                run.witness("contest_without_effect")
+    # the model's StreamIsFunctionOfSizes on the code: runs with equal sizes made the same draws
+    by_sig = {}
+    for r in traces:
+        by_sig.setdefault(bootrun.signature(r), []).append(r)
+    for sig, rs in by_sig.items():
+        if len(rs) > 1:
+            run.witness("equal_sizes_compared")
+        for r in rs[1:]:
+            if bootrun.stream(r) != bootrun.stream(rs[0]):
+                run.violation("stream_is_a_function_of_the_sizes", {"clause": "stream_is_a_function_of_the_sizes"},
+                              {"sizes": list(sig), "a": bootrun.stream(rs[0]), "b": bootrun.stream(r), "origin_a": rs[0]["origin"], "origin_b": r["origin"]})
+                break
+
+    def on_reject(tr, clause, inv):
+        run.violation(clause, {"clause": clause}, {"trace": {k: v for k, v in tr.items() if k not in ("train", "test", "unexp")}})
+
+    n_ok = tracecheck.validate("Trace_BootstrapRun", "Trace_BootstrapRun.cfg", traces, on_reject, run=run, chunk=150)
+    run.cov["traces_validated_against_impl"] += n_ok
+    run.sample({"recorded": {k: v for k, v in traces[0].items() if k not in ("train", "test", "unexp")}})
+    run.finish(require_witnesses=["district_column", "state_columns_only", "single_contest_effect_nothing_drawn", "several_contest_effects",
+                                  "lambda_given", "lambda_cross_validated", "presidential_correction", "second_call_on_the_object",
+                                  "unexpected_units", "contest_without_effect", "equal_sizes_compared"])
